@@ -159,6 +159,28 @@ def fault_scenarios(cases, prop):
                     "meta": dict(c, family="fault")})
     return out
 
+def c02_fault_scenarios(prop):
+    """C02 when the router says no: policies that are installed and change in one family only (what the agent sends for
+    them is a patch relative to what it fetched), and the router refuses the open of the instance / one of the loads.
+    Whatever the agent does next, every payload it sends is judged on the state it meets, and nothing is written to
+    another instance."""
+    out = []; k = 0
+    kinds = ["rpc-error", "tag:resource-denied", "error+warning", "tag:in-use"]
+    for target, index in [("open", 0), ("load", 1), ("load", 2), ("load", 3)]:
+        for kind in kinds:
+            irr = Irr(); running = []; policies = {}; eph0 = []
+            for i, (inst, tgt) in enumerate([((["a"], ["c"]), (["a", "b"], ["c"])), ((["a", "b"], ["c"]), (["a", "b"], [])), ((["r9"], ["c"]), (["r9", "a"], ["c"]))]):
+                name = f"inst-{i}"; expr = irr.asset_with(*tgt)
+                eph0.append(installed(name, *inst))
+                running.append(stmt(name, f"/* bgpfu-fltr: {expr} */"))
+                policies[name] = exp(True, True, "ok", tgt[0], tgt[1], expr, f"installed, one family changes; {kind} at {target} {index}")
+            out.append({"case": f"{prop}-rf{k}", "instance": "bgpfu-inst", "eph0": eph0,
+                        "runs": [{"running": running, "irr": irr.db, "faults": [{"target": target, "index": index, "kind": kind}], "repeat": False,
+                                  "expect": {"prop": prop, "c16": False, "policies": policies}}],
+                        "meta": {"family": "refused", "target": target, "index": index, "kind": kind}})
+            k += 1
+    return out
+
 BAD = {"sunk-then-fail": ("AS{asn} AND AS-MISSING{k}", "sunk"), "unknown-as-set": ("AS-MISSING{k}", None), "error-E": ("AS-ERR{k}", "E"), "error-F": ("AS-ERR{k}", "F"),
        # the unsupported construct is not in the policy's own expression but in the filter-set it names
        "fset-regex": ("FLTR-UNSUP-RE{k}", "fset:<^AS65001 .* AS65002$>"), "fset-peeras": ("FLTR-UNSUP-PA{k} OR AS-NOBODY{k}", "fset:PeerAS"),
